@@ -93,8 +93,10 @@ func (s *fakeSource) ReadFeatures(ch chan<- processing.Feature) {
 		s.r.log.add(map[string]any{"e": "SrcSend", "i": i + 1})
 		ch <- f
 	}
-	close(ch)
+	// logged BEFORE the close: once the channel is closed the rest of the pipeline may run to completion (and log TgtDone)
+	// before this goroutine is scheduled again, and the trace must not show effects of the close ahead of the close
 	s.r.log.add(map[string]any{"e": "SrcClose"})
+	close(ch)
 }
 
 type fakeTarget struct {
